@@ -8,7 +8,7 @@ RULE = ("cases = (bit stride b, length, input dtype, content pattern), enumerate
         "family of position lists and every window size 1..64/b against Python integers (one transition per observation); "
         "non-trivial = the packed array spans more than one 64-bit register or ends inside a register")
 ASSUMPTIONS = ["oracle: Python integers (sum(vals[i+j] << (b*j)))", "values fit in b bits (the statement's precondition)"]
-REQUIRED_FEATURES = ["same_object_sequence", "boundary_bits", "length_not_multiple_of_register", "window_straddles_registers", "multi_register", "exhaustive_contents", "empty_array",
+REQUIRED_FEATURES = ["same_object_sequence", "boundary_bits", "dtype_narrower_than_stride", "length_not_multiple_of_register", "window_straddles_registers", "multi_register", "exhaustive_contents", "empty_array",
                      "position_list_with_repeats", "stride_64"]
 BOUNDS = {"quick": "b in {1,2,4,8,16,32,64} x lengths {0..5, p-1,p,p+1, 2p-1,2p,2p+1, 3p+2} (p=64/b) x every integer dtype that holds 2**b-1 x "
                    "{zeros, max, alternating, progression}; ALL contents for b=1 (L<=10) and b=2 (L<=5); every position, 6 position-list families, every window 1..p",
@@ -18,11 +18,10 @@ INT_DTYPES = ["uint8", "int8", "uint16", "int16", "uint32", "int32", "uint64", "
 
 
 def _dtypes_for(b):
-    out = []
-    for dt in INT_DTYPES:
-        if int(np.iinfo(dt).max) >= 2 ** b - 1:
-            out.append(dt)
-    return out
+    """dtypes that can hold every b-bit value first; then the narrower ones (their contents are clipped to the dtype's maximum:
+    the values still fit in b bits, which is all the statement asks)"""
+    wide = [dt for dt in INT_DTYPES if int(np.iinfo(dt).max) >= 2 ** b - 1]
+    return wide + [dt for dt in INT_DTYPES if dt not in wide]
 
 
 def shards(tier):
@@ -62,7 +61,7 @@ def cases(shard, tier):
     for n in _lengths(b, tier):
         for pat in ("zeros", "max", "alt", "prog"):
             yield [b, n, dt, pat]
-    if dt == _dtypes_for(b)[0]:
+    if dt == _dtypes_for(b)[0] and int(np.iinfo(dt).max) >= 2 ** b - 1:
         # all-zero arrays of 2p+1 elements with two elements next to a register boundary set to {1, top bit only, all ones}:
         # every way a window can pick up or lose a bit when it straddles two registers
         p = 64 // b
@@ -114,6 +113,10 @@ def check(case, acc):
         acc.feature("stride_64")
     if n > p or n % p:
         acc.nontrivial()
+    dmax = int(np.iinfo(dt).max)
+    if dmax < 2 ** b - 1:
+        acc.feature("dtype_narrower_than_stride")
+        vals = [min(v, dmax) if v > dmax else v for v in vals]
     arr = np.array(vals, dtype=dt)
     acc.state((b, n, dt, tuple(vals)))
     pk = lambda: BitArray.pack(arr.copy(), b)
